@@ -8,8 +8,9 @@ the extracted AST (`_Interp`; nothing from the repository is imported or run) on
 table of field values the schedule format documents.
 
 R1  geodesic argument roles at the distance plausibility rule (T-ROLE); the distance is
-    between origin and destination and is converted to km.  Roles are resolved through
-    local aliases, so the construct key names roles, not argument text.
+    between origin and destination.  Roles are resolved through local aliases, so the
+    construct key names roles, not argument text.  (That the *distance* component, in km,
+    is what the thresholds see is decided by R7's evaluation.)
 R2  open-ended effective dates.  For each of the `effective_from` / `effective_to`
     parameters of _add_flight and _add_schedule the value passed by the importer is
     followed back (through locals, tuple results and helper methods of any class) to a
@@ -24,9 +25,13 @@ R3  leg roles and instants.  The value stored in each timestamp column is resolv
     only user of the arrival day offset.  The zone-aware instant is built *per flight date
     from that date*: the value that is localised depends on the date of the per-day loop
     (a UTC offset taken once per flight is wrong across a DST change).  Wall-clock
-    arithmetic first, localisation last.  hour→hours, minute→minutes.  Column lists and
-    value tuples of INSERTs, and the arguments passed by the importer, agree position by
-    position in role (antonym pairs departure/arrival, origin/destination, from/to).
+    arithmetic first, localisation last (`<zone>.utcoffset(<value>)` counts as localising that
+    value).  hour→hours, minute→minutes.  The INSERT statements are *computed* (literals,
+    f-strings, joins, repetition, module constants and single-definition locals folded by the
+    checker's evaluator), so column lists are what the database sees wherever they are
+    spelled; columns, placeholders and the value tuple / NamedTuple, and the arguments passed
+    by the importer, agree position by position in role (antonym pairs departure/arrival,
+    origin/destination, from/to).
 R4  count recorded (T-ORDER): every path of `add` to `return True` passes
     _add_flight, _add_schedule and _set_flight_count(…, n) with n the return of
     _add_schedule and the id returned by _add_flight.
@@ -41,8 +46,15 @@ R6  expansion shape: inclusive daily pd.date_range over the two effective dates
     evaluated on tables: all 128 weekday sets in both encodings, arrival-day codes
     'P'/blank/0/1/2, open-ended markers and YYYYMMDD dates, HHMM times, flight number,
     end-point roles.
-R7  plausibility rule shape: a row is dropped for distance only when both the
-    absolute and the relative difference exceed their thresholds.
+R7  plausibility rule, by evaluation: _distance_check is run by the checker's interpreter
+    with the inverse-geodesic call answered by (azimuth, azimuth, metres), on a grid with a
+    point in every region of: geodesic distance against the zero threshold, stated distance
+    against 0, absolute difference against its threshold, relative difference against its
+    threshold - with the documented thresholds (defaults) and with a second set passed
+    explicitly.  Dropped iff geodesic < zero threshold, or stated > 0 and |stated - geodesic|
+    > abs threshold and 100 |...| / geodesic > percent threshold; guard clauses, flags, early
+    returns, helper methods and tuple unpacking of the geodesic result are all the same
+    function.  The stated distance reaches it as <row distance> x 1.609344 by value.
 R8  the airport reader admits every row that carries an IATA code.
 """
 
@@ -52,6 +64,7 @@ import ast
 import datetime as _dt
 import itertools
 import re
+from fractions import Fraction
 
 from ..astutil import (LOG_CALLS, ancestors, call_name, calls_in, conjuncts, const_value, guards_of, names_in, norm,
                        single_def_value, stmt_of, stores_to, walk_no_nested)
@@ -1107,28 +1120,8 @@ def _rule_r1(ctx, prog, dck):
                '; '.join(f'slot {i} expects {w} but receives `{t}` ({g})' for i, w, t, g, v in confl) +
                ' — with |lon| > 90 the distance is NaN and every stated distance is accepted; otherwise a '
                'plausible row is dropped as suspicious', line=c.lineno)
-        # the distance component, in km, on its way to the comparisons: look at the call in its full context
-        host = stmt_of(c)
-        tgt = host.targets[0].id if isinstance(host, ast.Assign) and isinstance(host.targets[0], ast.Name) else None
-        ctxs = [getattr(host, 'value', host)]
-        for t, st, how in stores_to(fi.node):
-            v = getattr(st, 'value', None)
-            if tgt and v is not None and st is not host and tgt in names_in(v):
-                ctxs.append(_subst(fi.node, v))
-        is_dist = any(isinstance(x, ast.Subscript) and const_value(x.slice) == 2 and isinstance(x.value, ast.Call)
-                      and x.value.func is not None and getattr(x.value.func, 'attr', '') == kind
-                      for e_ in ctxs for x in ast.walk(e_))
-        if not is_dist and isinstance(host, ast.Assign) and isinstance(host.targets[0], (ast.Tuple, ast.List)) \
-                and len(host.targets[0].elts) == 3:
-            is_dist = True  # az12, az21, dist = GEOD.inv(...)
-        ctx.ob('C13-R1', fi, 'distance component [2] of the inverse geodesic', is_dist,
-               'distance' if is_dist else 'not the distance component', line=c.lineno, nontrivial=False)
-        km = any(isinstance(x, ast.BinOp) and (
-            (isinstance(x.op, ast.Div) and const_value(x.right) in (1000, 1000.0)) or
-            (isinstance(x.op, ast.Mult) and (const_value(x.right) in (0.001, 1e-3) or const_value(x.left) in (0.001, 1e-3))))
-            for e_ in ctxs for x in ast.walk(e_))
-        ctx.ob('C13-R1', fi, 'metres converted to kilometres', km, '/ 1000' if km else
-               'geodesic distance is not converted to km before comparison with the stated km', nontrivial=False)
+        # (that the *distance* component, converted to km, is what the thresholds are compared with is decided by R7,
+        # which runs the function with a known geodesic answer)
         ends = [_idents(_subst(fi.node, a)) & {'origin', 'destination', 'dest'} for a in c.args]
         ok = len(ends) == 4 and ends[0] == ends[1] == {'origin'} and ends[2] == ends[3] and ends[2] and 'origin' not in ends[2]
         ctx.ob('C13-R1', fi, 'distance is between origin and destination', bool(ok),
@@ -1253,6 +1246,9 @@ def _localisations(e):
             out.append((x, x.func.value, x.args[0] if x.args else kw['tz']))
         elif attr == 'localize' and x.args:
             out.append((x, x.args[0], x.func.value))
+        elif attr == 'utcoffset' and len(x.args) == 1 and not x.keywords:
+            # <zone>.utcoffset(<wall-clock value>): the zone's offset *at that value* - the same question as localising it
+            out.append((x, x.args[0], x.func.value))
         elif nm in ('datetime', 'Timestamp', 'combine') and ('tzinfo' in kw or 'tz' in kw):
             rest = ast.Tuple(elts=list(x.args) + [v for k, v in kw.items() if k not in ('tzinfo', 'tz')], ctx=ast.Load())
             out.append((x, rest, kw.get('tzinfo', kw.get('tz'))))
@@ -1294,15 +1290,22 @@ def _row_values(prog, fi, row):
     return None, None
 
 
+def _static_str(prog, fi, e):
+    """the string `e` denotes when it is built from literals only: f-strings, `sep.join(...)`, repetition, `len`,
+    module constants and single-definition locals, folded by the checker's evaluator; None when it is not static"""
+    try:
+        v = _Interp(prog).eval(_subst(fi.node, e), fi, [{}])
+    except (_Undecidable, _Raised, RecursionError):
+        return None
+    return v if isinstance(v, str) else None
+
+
 def _schedule_rows(prog, sch):
     """(columns, value expressions, append call) of the schedules INSERT"""
     ins = [c for c in calls_in(sch.node) if call_name(c).endswith('executemany') and len(c.args) >= 2]
     if not ins:
         return None
-    sqln = ins[0].args[0]
-    if isinstance(sqln, ast.Name):
-        sqln = single_def_value(sch.node, sqln.id)
-    sql = sqln.value if isinstance(sqln, ast.Constant) and isinstance(sqln.value, str) else ''
+    sql = _static_str(prog, sch, ins[0].args[0]) or ''
     mcol = re.search(r'\(([^)]*)\)\s*VALUES', sql, re.S)
     cols = [c.strip() for c in mcol.group(1).split(',')] if mcol else []
     lst = ins[0].args[1]
@@ -1386,7 +1389,8 @@ def _rule_r3(ctx, prog, add, flt, sch):
             # time, so anything added after the localisation is an hour off across a DST change
             lset = {id(n) for n, _, _ in locs}
             arith_after = [x for x in ast.walk(v) if isinstance(x, ast.BinOp) and isinstance(x.op, (ast.Add, ast.Sub))
-                           and any(id(y) in lset for side in (x.left, x.right) for y in ast.walk(side))
+                           and any(id(y) in lset and getattr(getattr(y, 'func', None), 'attr', '') != 'utcoffset'
+                                   for side in (x.left, x.right) for y in ast.walk(side))
                            and not (isinstance(x.op, ast.Sub) and _is_difference_of_instants(x, lset))]
             ctx.ob('C13-R3', sch, f'{col}: zone attached after all wall-clock arithmetic', not arith_after,
                    'nothing is added to the instant once it carries its zone' if not arith_after else
@@ -1406,18 +1410,29 @@ def _rule_r3(ctx, prog, add, flt, sch):
                nontrivial=False)
     ctx.floor('C13-R3/instants', ninst, 2, 'timestamp columns resolved to their instants')
 
-    # flights INSERT
-    flds = single_def_value(flt.node, 'fields')
-    exe = [c for c in calls_in(flt.node) if call_name(c).endswith('.execute')]
-    if flds is None or not isinstance(flds, (ast.List, ast.Tuple)) or not exe or len(exe[0].args) < 2:
-        ctx.undecided('C13-R3', flt, 'flights INSERT', 'fields list / value tuple idiom not found')
-    tup = exe[0].args[1]
-    if isinstance(tup, ast.Name):
-        tup = single_def_value(flt.node, tup.id)
-    if not isinstance(tup, ast.Tuple):
-        ctx.undecided('C13-R3', flt, 'flights INSERT', 'fields list / value tuple idiom not found')
-    cols = [e.value for e in flds.elts]
-    vals = tup.elts
+    # flights INSERT: the statement text is *computed* (literals, f-strings, joins, repetition, module constants and
+    # single-definition locals are folded by the checker's evaluator), so the column list is what the database sees,
+    # wherever it is spelled
+    found = None
+    for c in calls_in(flt.node):
+        if call_name(c).split('.')[-1] == 'execute' and len(c.args) >= 2 and not c.keywords:
+            sql = _static_str(prog, flt, c.args[0])
+            mm = re.search(r'INSERT\s+(?:OR\s+\w+\s+)?INTO\s+flights\s*\(([^)]*)\)\s*VALUES\s*\(([^)]*)\)', sql or '', re.S | re.I)
+            if mm:
+                found = (c, mm)
+    if found is None:
+        ctx.undecided('C13-R3', flt, 'flights INSERT', 'no execute() of a statically known `INSERT INTO flights (…) VALUES (…)` '
+                      'with a parameter sequence')
+    exe, mm = found
+    cols = [x.strip() for x in mm.group(1).split(',') if x.strip()]
+    marks = [x.strip() for x in mm.group(2).split(',') if x.strip()]
+    vals, _ = _row_values(prog, flt, exe.args[1])
+    if vals is None or any(q != '?' for q in marks):
+        ctx.undecided('C13-R3', flt, 'flights INSERT', 'parameters are not a tuple / NamedTuple display bound to `?` placeholders')
+    okq = len(marks) == len(cols)
+    ctx.ob('C13-R3', flt, 'flights INSERT: one placeholder per column', okq,
+           f'{len(cols)} columns, {len(marks)} placeholders' if okq else
+           f'{len(cols)} columns but {len(marks)} placeholders: the statement fails for every row', nontrivial=False)
     ok = len(cols) == len(vals)
     ctx.ob('C13-R3', flt, f'flights INSERT: {len(cols)} columns, {len(vals)} values', ok,
            'same arity' if ok else 'column list and value tuple differ in length')
@@ -1811,44 +1826,100 @@ def _rule_r6(ctx, prog, om, wm, sch):
           'times, end points, flight number', 'row decoding changed')
 
 
+class _Tok:
+    """an opaque repository object handed to interpreted code (an airport record, a cursor): what is read from it
+    is opaque too; nothing can be computed or decided from it"""
+    def __init__(self, path):
+        self.path = path
+
+    def __repr__(self):
+        return f'<{self.path}>'
+
+
+class _DistInterp(_Interp):
+    """the interpreter with the one library call the plausibility rule depends on replaced by a known answer:
+    `<geod>.inv(lat/lon x 4)` returns (azimuth, azimuth, `metres`).  Statements evaluated for their effect only
+    (recording a warning) are skipped when they cannot be interpreted: what is *returned* does not depend on them."""
+
+    def __init__(self, prog, metres):
+        super().__init__(prog)
+        self.metres = metres
+        self.geod_calls = 0
+
+    def eval(self, e, fi, sc):
+        if isinstance(e, ast.Attribute):
+            v = self.eval(e.value, fi, sc)
+            if isinstance(v, _Tok):
+                return _Tok(f'{v.path}.{e.attr}')
+        return super().eval(e, fi, sc)
+
+    def eval_call(self, e, fi, sc):
+        if isinstance(e.func, ast.Attribute) and e.func.attr == 'inv' and len(e.args) == 4 and not e.keywords:
+            self.geod_calls += 1
+            return (47.0, -131.0, self.metres)     # forward / back azimuth [deg], distance [m]
+        return super().eval_call(e, fi, sc)
+
+    def exec(self, st, fi, sc):
+        if isinstance(st, ast.Expr):
+            try:
+                return super().exec(st, fi, sc)
+            except _Undecidable:
+                return None
+        return super().exec(st, fi, sc)
+
+
 def _rule_r7(ctx, prog, add, dck):
-    rej = None
-    for n in walk_no_nested(dck.node):
-        if isinstance(n, ast.Return) and isinstance(n.value, ast.Constant) and n.value.value is False:
-            atoms = [(_subst(dck.node, t), pol) for t, pol in _atoms([(t, pol) for t, pol, _ in guards_of(n)])]
-            if any('abs' in _idents(t) or 'pct' in _idents(t) or 'percent' in _idents(t) for t, _ in atoms):
-                rej = (n, atoms)
+    """the plausibility rule, decided by running _distance_check (the checker's interpreter, geodesic answer given)
+    over a grid that has a point in every region of: geodesic distance against the zero threshold, stated distance
+    against 0, absolute difference against its threshold, relative difference against its threshold — with the
+    documented thresholds (the defaults) and with a second set passed explicitly"""
     given = next((p for p in dck.params if {'given', 'distance'} <= _tokens(p) or {'stated', 'distance'} <= _tokens(p)), None)
-    gc = None
-    ok = False
-    if rej is not None and given is not None:
-        absd = pctd = pos = False
-        for t, pol in rej[1]:
-            if not (isinstance(t, ast.Compare) and len(t.ops) == 1 and pol):
-                continue
-            l, op, r = t.left, t.ops[0], t.comparators[0]
-            if isinstance(op, ast.Lt):
-                l, r, op = r, l, ast.Gt()
-            if not isinstance(op, ast.Gt):
-                continue
-            if isinstance(r, ast.Name) and r.id in dck.params:
-                thr = _tokens(r.id)
-                if 'abs' in thr and isinstance(l, ast.Call) and call_name(l) == 'abs' and isinstance(l.args[0], ast.BinOp) \
-                        and isinstance(l.args[0].op, ast.Sub) and given in names_in(l.args[0]):
-                    absd = True
-                if ('percent' in thr or 'relative' in thr) and isinstance(l, ast.BinOp) and isinstance(l.op, ast.Div):
-                    num = l.left
-                    if isinstance(num, ast.BinOp) and isinstance(num.op, ast.Mult) and 100 in (const_value(num.left), const_value(num.right)) \
-                            and any(isinstance(x, ast.Call) and call_name(x) == 'abs' and given in names_in(x) for x in ast.walk(num)) \
-                            and given not in names_in(l.right):
-                        pctd = True
-            if isinstance(l, ast.Name) and l.id == given and const_value(r) == 0:
-                pos = True
-        ok = absd and pctd and pos
-    ctx.ob('C13-R7', dck, 'dropped only if absolute AND relative difference exceed their thresholds', ok,
-           '|stated - geodesic| > abs threshold and 100*|…|/geodesic > percent threshold, for a stated distance > 0' if ok else
-           'plausibility rule changed (a plausible row can be dropped)',
-           line=(rej[0].lineno if rej else dck.node.lineno))
+    kinds = {}
+    for p in dck.params:
+        t = _tokens(p)
+        if 'threshold' in t:
+            k = 'zero' if 'zero' in t else 'abs' if ('abs' in t or 'absolute' in t) else 'rel' if (t & {'percent', 'relative', 'rel', 'pct'}) else None
+            if k:
+                kinds[k] = p
+    if given is None or set(kinds) != {'zero', 'abs', 'rel'} or dck.cls is None:
+        ctx.undecided('C13-R7', dck, 'plausibility rule', 'stated-distance / threshold parameters not recognised')
+    recv = _Rec(dck.cls.name, {}, dck.cls)
+    others = [p for p in dck.params[1:] if p != given and p not in kinds.values()]
+    bad = None
+    n = 0
+    try:
+        for explicit in (None, {'zero': 3.0, 'abs': 60.0, 'rel': 20.0}):
+            Z, A, P = (1.0, 50.0, 10.0) if explicit is None else (explicit['zero'], explicit['abs'], explicit['rel'])
+            for G in (0.5, 0.99, 1.01, 2.0, 100.0, 400.0, 1000.0, 4096.0):
+                for delta in (0.0, 8.0, 25.0, 49.0, 51.0, 64.0, 99.0, 101.0, 128.0, 512.0, 2048.0):
+                    for D in {G + delta, G - delta, 0.0}:
+                        want = not (G < Z or (D > 0 and abs(D - G) > A and 100 * abs(D - G) / G > P))
+                        it = _DistInterp(prog, G * 1000.0)
+                        kw = {p_: _Tok(p_) for p_ in others}
+                        kw[given] = D
+                        if explicit is not None:
+                            kw.update({kinds[k]: v for k, v in explicit.items()})
+                        got = it.call_fn(_Fn(dck, dck.node, []), [recv], kw)
+                        n += 1
+                        if it.geod_calls != 1 or not isinstance(got, bool):
+                            raise _Undecidable(f'{it.geod_calls} inverse-geodesic calls, result {got!r}')
+                        if got != want and (bad is None or (bad[0] and not want)):
+                            bad = (want, G, D, (Z, A, P), explicit is not None)
+    except (_Undecidable, _Raised) as ex:
+        ctx.undecided('C13-R7', dck, 'plausibility rule', f'cannot run _distance_check on the case grid: {ex}')
+    ctx.floor('C13-R7', n, 100, 'cases of the plausibility rule evaluated')
+    ok = bad is None
+    why = (f'in all {n} cases (documented and explicit thresholds): dropped iff the geodesic distance is below the zero threshold, or the '
+           'stated distance is > 0 and |stated - geodesic| > abs threshold and 100*|…|/geodesic > percent threshold')
+    if bad is not None:
+        want, G, D, (Z, A, P), expl = bad
+        why = (f'plausibility rule changed: geodesic {G:g} km, stated {D:g} km, thresholds zero {Z:g} km / abs {A:g} km / rel {P:g} %'
+               f'{" (passed explicitly)" if expl else ""}: |diff| = {abs(D - G):g} km = {100 * abs(D - G) / G:.3g} % — the documented rule '
+               + ('keeps the row, the code drops it (a plausible row is dropped)' if want else
+                  'drops the row as implausible, the code imports it'))
+    rejs = [n_ for n_ in walk_no_nested(dck.node) if isinstance(n_, ast.Return) and isinstance(n_.value, ast.Constant) and n_.value.value is False]
+    ctx.ob('C13-R7', dck, 'dropped only if absolute AND relative difference exceed their thresholds', ok, why,
+           line=(rejs[-1].lineno if rejs else dck.node.lineno))
     a = dck.node.args
     dflt = {x.arg: const_value(d) for x, d in zip((a.posonlyargs + a.args)[-len(a.defaults):], a.defaults)} if a.defaults else {}
     dflt.update({x.arg: const_value(d) for x, d in zip(a.kwonlyargs, a.kw_defaults) if d is not None})
@@ -1862,8 +1933,16 @@ def _rule_r7(ctx, prog, add, dck):
         arg = _arg_map(dck, dc[0]).get(given)
         if arg is not None:
             fa = _subst(add.node, arg)
-            ok = isinstance(fa, ast.BinOp) and isinstance(fa.op, ast.Mult) and \
-                {'STATUTE_MILES_TO_KM'} & {norm(fa.left), norm(fa.right)} and 'distance' in (_idents(fa.left) | _idents(fa.right))
+            # by value: <the row's distance> x 1.609344 (the statute mile in km), however the factor is named or written
+            try:
+                from ..algebra import AlgebraError, normal_form
+                from .c12 import visible_constants
+                nf = normal_form(fa, {}, visible_constants(prog, add.module))
+                monos = list(nf.num.items())
+                ok = nf.den == {(): 1} and len(monos) == 1 and monos[0][1] == Fraction('1.609344') and len(monos[0][0]) == 1 \
+                    and monos[0][0][0][1] == 1 and 'distance' in _tokens(monos[0][0][0][0])
+            except AlgebraError:
+                ok = False
             thr = [p for p in _arg_map(dck, dc[0]) if 'threshold' in _tokens(p)]
             ok = bool(ok) and not thr
     ctx.ob('C13-R7', add, 'stated distance converted from statute miles to km', bool(ok),
